@@ -932,6 +932,16 @@ src = sin(T) * alpha
 points = np.array([[0.1, 0.2, 0.3], [0.25, 0.25, 0.25]])
 expressions = [(heat_flux, points), (src, points), (T * T, points)]
 """,
+    "mass[p1]^2`q\\x.py": """\
+import basix.ufl
+from ufl import FunctionSpace, Mesh, TestFunction, TrialFunction, dx, inner
+
+cell = "interval"
+mesh = Mesh(basix.ufl.element("Lagrange", cell, 1, shape=(1,)))
+V = FunctionSpace(mesh, basix.ufl.element("Lagrange", cell, 1))
+u, v = TrialFunction(V), TestFunction(V)
+a = inner(u, v) * dx
+""",
     "café - 2nd.order.py": """\
 import basix.ufl
 from ufl import Coefficient, FunctionSpace, Mesh, TestFunction, TrialFunction, dx, grad, inner, jump, dS, avg
@@ -969,7 +979,7 @@ def pair_corpus(tier: str, rng: random.Random, invocations: list[dict]) -> list[
         jobs += [{"path": str(p), "scalar_type": stype(p)} for p in pick]
         jobs += [{"generated": g, "scalar_type": "float64"} for g in gen]
         # cheap repeats so that the quick tier runs every invocation variant at least once
-        small = ["expr_only.py", "caf\u00e9 - 2nd.order.py", "3d.prism-mesh.py"]
+        small = ["mass[p1]^2`q\\x.py", "expr_only.py", "caf\u00e9 - 2nd.order.py", "3d.prism-mesh.py"]
         k = 0
         while len(jobs) < len(invocations):
             jobs.append({"generated": small[k % len(small)], "scalar_type": ["float32", "complex128"][(k // len(small)) % 2]})
